@@ -73,6 +73,7 @@ type spec struct {
 	Level    string
 	Flavours []string // worker builds to run; results are merged
 	Shards   int
+	ThorN    int    // thorough tier: number of shards (0 = Shards); more shards than cores run in waves, each worker process lives shorter
 	Diff     bool   // compare transcripts of the first two flavours line by line
 	QuickB   string // internal budgets handed to workers
 	ThorB    string
@@ -91,7 +92,11 @@ var specs = map[string]spec{
 	"C09": {Level: "model_checking", Flavours: []string{"sched"}, Shards: 14, QuickB: "100s", ThorB: "15m"},
 	"C10": {Level: "model_checking", Flavours: []string{"sched"}, Shards: 14, QuickB: "100s", ThorB: "20m"},
 	"C11": {Level: "model_checking", Flavours: []string{"sched"}, Shards: 14, QuickB: "100s", ThorB: "20m"},
-	"C12": {Level: "model_checking", Flavours: []string{"sched-race"}, Shards: 14, QuickB: "100s", ThorB: "20m"},
+	// the race detector's bookkeeping grows with the number of goroutines a process has ever run (about
+	// 1.3 GB per minute of exploration per worker here): the thorough tier runs 112 workers of 2 minutes
+	// each in eight waves instead of 14 long-lived ones, and every worker stops exploring when its resident
+	// set passes 3.5 GB (reported as budget hit)
+	"C12": {Level: "model_checking", Flavours: []string{"sched-race"}, Shards: 14, ThorN: 112, QuickB: "100s", ThorB: "2m"},
 	"C13": {Level: "fault_enumeration", Flavours: []string{"sched"}, Shards: 14, QuickB: "100s", ThorB: "15m"},
 	"C14": {Level: "model_checking", Flavours: []string{"seq"}, Shards: 14, QuickB: "100s", ThorB: "15m"},
 	"C15": {Level: "exploration", Flavours: []string{"seq", "seq-purego"}, Shards: 7, Diff: true, QuickB: "100s", ThorB: "15m"},
@@ -419,7 +424,7 @@ func runShard(bin, prop, tier, fl string, shard, n int, seed int64, budget strin
 		e = append(e, "GOGC=400", "GOMEMLIMIT=2500MiB")
 	}
 	if fl == "sched-race" {
-		e = append(e, "GOMEMLIMIT=1200MiB")
+		e = append(e, "GOMEMLIMIT=1200MiB", "VERIF_RSS_LIMIT_MB=3500")
 	}
 	if fl == "sched-race" {
 		e = append(e, "GORACE=halt_on_error=0 log_path="+filepath.Join(work, tag+".race"))
@@ -508,6 +513,9 @@ func runCheck(prop, tier, only string) int {
 	for _, fl := range sp.Flavours {
 		bins[fl] = build(fl)
 		ns := sp.Shards
+		if tier == "thorough" && sp.ThorN > 0 {
+			ns = sp.ThorN
+		}
 		if only != "" {
 			ns = 1
 		}
@@ -529,6 +537,9 @@ func runCheck(prop, tier, only string) int {
 			sem <- struct{}{}
 			defer func() { <-sem }()
 			ns := sp.Shards
+			if tier == "thorough" && sp.ThorN > 0 {
+				ns = sp.ThorN
+			}
 			if only != "" {
 				ns = 1
 			}
